@@ -178,7 +178,7 @@ def install():
                     if bool(result) != expected:
                         c.violation("is_sequential:wrong-verdict",
                                     f"is_sequential={result} but independent reading says {expected} {why}",
-                                    case={"kind": "seq", "equations": list(self.equation_strings), "op": "is_sequential"})
+                                    case=_seq_case(c, self.equation_strings, "is_sequential"))
                 except Exception as exc:
                     c.inconc(f"is_sequential:monitor-error:{type(exc).__name__}")
             return result
@@ -190,11 +190,19 @@ def install():
             c.note("anchor_missing:Sequential.is_sequential")
 
 
+def _seq_case(c, equations, op):
+    """the replayable case of a violation: the running workload case (source + history of reorderings) when there is one"""
+    cur = getattr(c, "case", None)
+    if isinstance(cur, dict) and cur.get("kind") == "seq" and "source" in cur:
+        return dict(cur, op=op, equations_at_violation=list(equations))
+    return {"kind": "seq", "equations": list(equations), "op": op}
+
+
 def _check_sequentialize(c, model, before, raised, result):
     struct_before = seq_structure(before)
     possible = exists_sequential_order(struct_before)
     after = tuple(model.equation_strings)
-    case = {"kind": "seq", "equations": list(before), "op": "sequentialize"}
+    case = _seq_case(c, before, "sequentialize")
     n = len(before)
     ndeps = sum(len((u & {l for l, _ in struct_before}) - {l}) for l, u in struct_before)
     c.event("sequentialize", "raised" if raised is not None else "returned",
@@ -336,6 +344,15 @@ def _run_seq_case(c, case):
         with rt.quiet():
             m = irispie.Sequential.from_string(case["source"])
             _ = m.is_sequential
+            # history of the model object: earlier rearrangements of the equations (every query after them is monitored
+            # against an independent reading of the equation strings in their current order)
+            for perm in case.get("reorders") or []:
+                try:
+                    m.reorder_equations(list(perm))
+                    c.note("history:reorder_equations")
+                except Exception as exc:
+                    c.note(f"history:reorder_equations!{type(exc).__name__}")
+                _ = m.is_sequential
             try:
                 m.sequentialize()
             except Exception:
@@ -461,7 +478,8 @@ def shard(c):
         n = int(rng.integers(1, c.scale(9, 14)))
         cyclic = bool(rng.random() < 0.3)
         src = _seq_source(rng, n, cyclic)
-        case = {"kind": "seq", "source": src, "cyclic_planted": cyclic}
+        case = {"kind": "seq", "source": src, "cyclic_planted": cyclic,
+                "reorders": [[int(v) for v in rng.permutation(n)] for _ in range(int(rng.integers(1, 3)))] if rng.random() < 0.5 else []}
         try:
             _run_seq_case(c, case)
         except Exception as exc:
